@@ -731,8 +731,12 @@ func ParseTCP(flowMessage *ProtoProducerMessage, data []byte, pc ParseConfig) (r
 		return res, nil
 	}
 
-	// the data offset (header length in 32-bit words) is the high nibble of byte 12
+	// the data offset (header length in 32-bit words) is the high nibble of byte 12;
+	// a value below the fixed 20-byte header is invalid and must not stall the parser chain
 	res.Size = int(data[12]>>4) * 4
+	if res.Size < 20 {
+		res.Size = 20
+	}
 
 	flowMessage.AddLayer("TCP")
 
